@@ -63,6 +63,10 @@ def app_program(draw, failures=True, allow_misbehaving=True):
     if failures and draw(st.integers(0, 5)) == 0:
         prog["fail"] = draw(st.sampled_from(["before_start", "after_start", "mid", "mid", "in_close"]))
         prog["fail_k"] = draw(st.integers(0, 3))
+        exc = draw(st.sampled_from([None, None, None, "FileNotFoundError", "PermissionError", "TimeoutError", "OSError:EIO",
+                                    "ConnectionResetError", "KeyError", "socket.timeout"]))
+        if exc:
+            prog["fail_exc"] = exc
         if prog["fail"] == "mid" and mode in ("list", "gen", "write", "write+list") and draw(st.integers(0, 2)) == 0:
             # the head is flushed by an empty first chunk / write(b""), then the application fails: headers sent, zero body bytes
             prog["chunks"] = [""] + list(prog["chunks"])
